@@ -48,7 +48,8 @@ type TunnelCfg struct {
 	Carrier      CarrierCfg
 	OpenMD       metadata.MD // metadata of the tunnel-opening call
 	OpenDeadline time.Duration
-	Key          any // affinity key returned for this tunnel (reverse)
+	Key          any  // affinity key returned for this tunnel (reverse)
+	Intercept    bool // the stub a forward tunnel is opened through has a client stream interceptor that adds metadata
 
 	shareHandler   *grpctunnel.TunnelServiceHandler
 	shareStub      tunnelpb.TunnelServiceClient
@@ -179,6 +180,7 @@ func (w *World) stubFor(t *Tunnel, outer *Tunnel, h *grpctunnel.TunnelServiceHan
 			car.StripRespNegotiate = true
 		}
 		car.Meta = ConnMeta{Negotiated: t.Cfg.FC != FCLegacy, FlowControl: t.Cfg.FC == FCBoth}
+		car.Intercept = t.Cfg.Intercept
 		t.Car = car
 		return car
 	}
